@@ -667,7 +667,11 @@ def run_net(rec):
             it = (lambda i, p: i + p.eq_params["k1"]) if rec["it"] == "shift" else None
             ot = (lambda i, o, p: o * p.eq_params["k2"] + i[0] + jnp.sum(o)) if rec["ot"] == "scale" else None
             shared = None
-            if rec["shared"] != "none":
+            if rec["shared"] == "lastint":
+                shared = (jnp.s_[0:nout - 1], jnp.s_[-1])            # the last output designated by a plain (negative) integer
+            elif rec["shared"] == "firstint":
+                shared = (jnp.s_[0], jnp.s_[1:nout])
+            elif rec["shared"] != "none":
                 shared = (jnp.s_[0:1], jnp.s_[1:nout])
             dim_x = 0 if rec["eq_type"] == "ODE" else rec["struct"]["dimx"]
             eqp = {"k1": jnp.array(float(rec["th"][0])), "k2": jnp.array(float(rec["th"][1]))}
@@ -675,7 +679,7 @@ def run_net(rec):
                 u = jinns.utils.create_PINN(jax.random.PRNGKey(0), eqx_list, rec["eq_type"], dim_x, input_transform=it, output_transform=ot,
                                             shared_pinn_outputs=shared)
                 if shared is not None:
-                    u = u[0] if rec["shared"] == "first" else u[1]
+                    u = u[0] if rec["shared"] in ("first", "firstint") else u[1]
                 nn = _set_linear_ints(u.init_params(), rec["layers"])
             else:
                 # the designated parameters are consumed in the order of the hyperparams LIST (rec.hth follows that order),
